@@ -385,6 +385,9 @@ def run_step(d, step):
         raise AssertionError(op)
 
 
+ABSENT = "chrZZ"      # a contig name that never occurs in a bin table of the recipes
+
+
 def bin_of(blocks, c, p):
     """id of the bin of chromosome c that contains the zero-based position p"""
     off = sum(len(b) for b in blocks[:c])
@@ -400,6 +403,8 @@ def binner_expected(step):
     blocks = blocks_from_widths(step["widths"])
     acc = {}
     for c1, p1, c2, p2 in step["pairs"]:
+        if c1 < 0 or c2 < 0:
+            continue          # a mate on a contig that is absent from the bin table: the record is dropped
         a, b_ = bin_of(blocks, c1, p1), bin_of(blocks, c2, p2)
         k = (min(a, b_), max(a, b_))
         acc[k] = acc.get(k, 0) + 1
@@ -414,9 +419,9 @@ def run_binner(d, step):
     from cooler.create import (ArrayLoader, HDF5Aggregator, TabixAggregator, aggregate_records, append, create,
                                create_cooler, create_from_unordered, rename_chroms, sanitize_pixels, sanitize_records)
     blocks = blocks_from_widths(step["widths"])
-    names = names_for(len(blocks))
+    names = names_for(len(blocks)) + [ABSENT]       # names[-1] = a contig that is not in the bin table
     bins = table_from_blocks(blocks, categorical=False)
-    cs = pd.Series([blk[-1][2] for blk in blocks], index=names, dtype=np.int64)
+    cs = pd.Series([blk[-1][2] for blk in blocks], index=names[:-1], dtype=np.int64)
     uri = _uri(d, step)
     kind = step["kind"]
     pairs = step["pairs"]
@@ -451,7 +456,7 @@ def run_binner(d, step):
         import pysam
         txt = os.path.join(d, f"pairs_{tag}.txt")
         with open(txt, "w") as fh:
-            for c1, p1, c2, p2 in pairs:
+            for c1, p1, c2, p2 in sorted(pairs, key=lambda q: (q[0] if q[0] >= 0 else 10 ** 6, q[1])):
                 fh.write(f"r\t{names[c1]}\t{p1 + 1}\t{names[c2]}\t{p2 + 1}\n")
         pysam.tabix_compress(txt, txt + ".gz", force=True)
         pysam.tabix_index(txt + ".gz", seq_col=1, start_col=2, end_col=2, zerobased=False, force=True)
@@ -982,6 +987,102 @@ def gen_cload(rng, out, group="", append=False):
     return {"op": "cload", "out": out, "group": group, "append": append, "chromsizes": sizes, "binsize": b, "lines": lines,
             "chunksize": chunksize_, "zero_based": zero, "symm": symm,
             "mergebuf": rng.choice([None, 1, 3]), "max_merge": rng.choice([None, 1, 2])}
+
+
+def cload_blocks(step):
+    if "chromsizes" in step:
+        b = step["binsize"]
+        return blocks_from_widths([[min(b, L - k * b) for k in range((L + b - 1) // b)] for L in step["chromsizes"]])
+    return blocks_from_widths(step["widths"])
+
+
+def cload_expected(step):
+    """counting model of `cooler cload pairs`: records with a mate on a contig absent from the bin table are
+    dropped; every other record counts once in (bin of mate 1, bin of mate 2), reflected into the upper triangle
+    in symmetric mode, kept as given in square mode"""
+    blocks = cload_blocks(step)
+    names = names_for(len(blocks))
+    sh = 0 if step.get("zero_based") else 1
+    acc = {}
+    for c1, p1, c2, p2 in step["lines"]:
+        if c1 not in names or c2 not in names:
+            continue
+        a, b_ = bin_of(blocks, names.index(c1), p1 - sh), bin_of(blocks, names.index(c2), p2 - sh)
+        k = (min(a, b_), max(a, b_)) if step["symm"] else (a, b_)
+        acc[k] = acc.get(k, 0) + 1
+    return [[a, b_, v] for (a, b_), v in sorted(acc.items())]
+
+
+def gen_absent_contigs(rng, thorough=False):
+    """text loaders fed records with exactly one mate (first / second) or both mates on a contig that is ABSENT
+    from the bin table: {fixed, variable} bins x {symmetric-upper, square} x chunk sizes.  Expected: those records
+    are dropped, the output passes the whole schema and holds exactly the counting model of the retained records
+    (so sum = number of retained records).  `load -f bg2` drops the stray record as well."""
+    R = []
+    k = 0
+    for fixed in (True, False):
+        for symm in (True, False):
+            for cs_ in ((1, 2, 3, 7, 1000) if thorough else (1, 3, 1000)):
+                k += 1
+                if fixed:
+                    b = rng.choice([3, 5])
+                    tab = {"chromsizes": [rng.randint(2, 4) * b - rng.randint(0, b - 1) for _ in range(rng.randint(2, 3))], "binsize": b}
+                else:
+                    tab = {"widths": [[rng.randint(1, 9) for _ in range(rng.randint(2, 4))] for _ in range(rng.randint(2, 3))]}
+                step = {"op": "cload", "out": "ab.cool", "group": "", "append": False, **tab, "chunksize": cs_,
+                        "zero_based": bool(k % 2), "symm": symm, "mergebuf": rng.choice([None, 1, 3]), "max_merge": rng.choice([None, 1, 2]),
+                        "exact": True, "lines": []}
+                blocks = cload_blocks(step)
+                names = names_for(len(blocks))
+                L = [blk[-1][2] for blk in blocks]
+                sh = 0 if step["zero_based"] else 1
+                lines = []
+                for _ in range(rng.randint(4, min(24, 5 * cs_ + 5))):
+                    c1, c2 = rng.randrange(len(L)), rng.choice([len(L) - 1, rng.randrange(len(L))])
+                    lines.append([names[c1], rng.randrange(L[c1]) + sh, names[c2], rng.randrange(L[c2]) + sh])
+                # the stray records: positions chosen so that a wrapped chromosome id would land in a real bin
+                for which in ("first", "second", "both", "second", "first"):
+                    c = rng.randrange(len(L))
+                    good = [names[c], rng.randrange(L[c]) + sh]
+                    stray = [ABSENT, rng.randrange(min(L)) + sh]
+                    rec = {"first": stray + good, "second": good + stray, "both": stray + [ABSENT, rng.randrange(min(L)) + sh]}[which]
+                    lines.insert(rng.randint(0, len(lines)), rec)
+                step["lines"] = lines
+                R.append([step])
+    # the record pipeline and the tabix binner with stray mates (index -1 = absent contig)
+    for ti, widths in enumerate([[[5, 5, 3], [5, 5, 5, 5, 1]], [[2, 7], [3, 3, 8, 1], [6, 2]]]):
+        blocks = blocks_from_widths(widths)
+        L = [blk[-1][2] for blk in blocks]
+        pairs = []
+        for _ in range(20):
+            c1, c2 = rng.randrange(len(L)), rng.randrange(len(L))
+            p1, p2 = rng.randrange(L[c1]), rng.randrange(L[c2])
+            if (c1, p1) > (c2, p2):
+                c1, p1, c2, p2 = c2, p2, c1, p1
+            pairs.append([c1, p1, c2, p2])
+        for _ in range(6):
+            c = rng.randrange(len(L))
+            q = rng.randrange(min(L))
+            pairs.append(rng.choice([[-1, q, c, rng.randrange(L[c])], [c, rng.randrange(L[c]), -1, q], [-1, q, -1, q]]))
+        base = {"op": "binner", "out": "ab.cool", "group": "", "widths": widths, "symm": True, "pairs": sorted(pairs)}
+        order = [[i, rng.random() < 0.4] for i in range(len(pairs))]
+        rng.shuffle(order)
+        R.append([dict(base, kind="records", chunksize=rng.choice([1, 4, 1000]) if thorough else (4, 1000)[ti % 2], order=order,
+                       mergebuf=rng.choice([1, 3, 100]), max_merge=rng.choice([1, 200]))])
+        R.append([dict(base, kind="tabix", chunksize=rng.choice([1, 3]), api="create")])
+    # bg2 text with a stray contig
+    for which in ("first", "second"):
+        st = gen_load(rng, "abl.cool")
+        while st["format"] != "bg2" or not st["lines"]:
+            st = gen_load(rng, "abl.cool")
+        ln = list(st["lines"][0])
+        if which == "first":
+            ln[0] = ABSENT
+        else:
+            ln[3] = ABSENT
+        st["lines"] = st["lines"] + [ln]       # the stray record is dropped; the file must pass the schema
+        R.append([st])
+    return R
 
 
 def cload_d2(last=True):
